@@ -6,7 +6,7 @@ BASE_OFF = "cd /repo && env -u BUIDL_VERIF_TRACE /venv/bin/python -m pytest -ra 
 
 CLAIMED = {
  "C11": dict(
-   text="TLC explores every PSBT an adversary obtains by applying up to two tamperings of a ten-entry catalogue (swapped scriptPubKey keeping metadata, foreign script, foreign key with forged derivation, all change keys from one cosigner, wrong path, foreign fingerprint, changed quorum, second change output, spend dressed as change, inconsistent input) to an honest m-of-n PSBT, against the change-detection procedure written check by check like PSBTOut.validate and _describe_basic_multisig_outputs: the policy of the unrepaired library is refuted (fake change), the repaired policy labels change only what the reference predicate RealChange allows and rejects inconsistent inputs. Every tampering is applied to real P2SH and P2WSH PSBTs (HD keys, global xpubs, as object and re-parsed from bytes) and run through describe_basic_multisig; TLC evaluates RealChange on the abstract counterpart and the fee / conservation identities with big-number sums.",
+   text="TLC explores every PSBT an adversary obtains by applying up to two tamperings of a twelve-entry catalogue (swapped scriptPubKey keeping metadata, foreign script, a committed script that only begins and ends like the multisig template (backdoor in the middle, another number in the OP_n position), foreign key with forged derivation, all change keys from one cosigner, wrong path, foreign fingerprint, changed quorum, second change output, spend dressed as change, inconsistent input) to an honest m-of-n PSBT, against the change-detection procedure written check by check like PSBTOut.validate and _describe_basic_multisig_outputs: the policies of the unrepaired library are refuted (fake change; get_quorum reading m and n off the ends of any script), the repaired policy labels change only what the reference predicate RealChange allows and rejects inconsistent inputs. Every tampering is applied to real P2SH and P2WSH PSBTs (HD keys, global xpubs, as object and re-parsed from bytes) and run through describe_basic_multisig; TLC evaluates RealChange on the abstract counterpart and the fee / conservation identities with big-number sums.",
    design="3/C11",
    note="Trusted: TLC, Review.tla / C11Cases.tla; which key sits where in a tampered PSBT is known to the harness by construction. Witness-UTXO amounts cannot contradict anything inside an unsigned PSBT: amount tampering is applied to non-witness UTXOs.",
    technique="TLA+ adversary model of the review procedure model-checked by TLC + scenario replay on real PSBTs decided by TLC with the reference predicate"),
